@@ -29,6 +29,7 @@ const (
 	lkR              // will acquire mx.RLock right after the point
 	lkW              // will acquire mx.Lock right after the point
 	lkHoldR          // is parked while holding mx.RLock (harness callbacks, C13 configuration only)
+	lkHoldW          // ... while holding mx.Lock
 )
 
 // parked is the record of one goroutine waiting at a hook point. It is written
@@ -42,9 +43,6 @@ type parked struct {
 	goid  uint64
 	attr  lockAttr
 	ch    chan int
-
-	// driver-private (never touched by the parking goroutine)
-	tag string // final name = name + tag ("@c1")
 }
 
 //go:norace
@@ -57,6 +55,7 @@ func (p *parked) rd() (point, name string, owner interface{}, goid uint64, attr 
 type Core struct {
 	arrivals chan *parked
 	parkedQ  []*parked
+	tags     map[*parked]string // driver-private: final name = name + tag ("@c1")
 	driver   uint64 // goroutine id of the driver; handler calls from it never park
 
 	evMu   sync.Mutex
@@ -64,7 +63,7 @@ type Core struct {
 }
 
 func newCore() *Core {
-	return &Core{arrivals: make(chan *parked, 1<<14), driver: goid()}
+	return &Core{arrivals: make(chan *parked, 1<<14), driver: goid(), tags: map[*parked]string{}}
 }
 
 // goid returns the id of the calling goroutine.
@@ -123,6 +122,7 @@ func (c *Core) release(p *parked, code int) {
 			break
 		}
 	}
+	delete(c.tags, p)
 	_, _, _, _, _, ch := p.rd()
 	raceOff()
 	ch <- code
@@ -158,13 +158,13 @@ func (c *Core) advanceExactly(d time.Duration) {
 // which is irrelevant because twins are interchangeable).
 func (c *Core) sortParked() {
 	sort.SliceStable(c.parkedQ, func(i, j int) bool {
-		return c.parkedQ[i].final() < c.parkedQ[j].final()
+		return c.final(c.parkedQ[i]) < c.final(c.parkedQ[j])
 	})
 }
 
-func (p *parked) final() string {
+func (c *Core) final(p *parked) string {
 	_, name, _, _, _, _ := p.rd()
-	return name + p.tag
+	return name + c.tags[p]
 }
 
 // Event is a ground-truth record produced by the stub task runner (and by
